@@ -12,9 +12,17 @@ def optHex : Option Bytes → String
   | none => "none"
   | some v => toHexField v
 
+def bytesLe : Bytes → Bytes → Bool
+  | [], _ => true
+  | _ :: _, [] => false
+  | x :: xs, y :: ys => x < y || (x == y && bytesLe xs ys)
+
+/-- Vary is compared as a sorted set: the property only speaks about membership. -/
+def canonVary (v : List Bytes) : List Bytes := (v.mergeSort bytesLe).eraseDups
+
 def renderResp (r : Response) : String :=
   s!"next={if r.next then 1 else 0};s204={if r.status204 then 1 else 0};acao={optHex r.acao};" ++
-  s!"acac={if r.acac then 1 else 0};vary={hexListField r.vary};am={optHex r.allowMethods};" ++
+  s!"acac={if r.acac then 1 else 0};vary={hexListField (canonVary r.vary)};am={optHex r.allowMethods};" ++
   s!"ah={optHex r.allowHeaders};ma={optHex r.maxAge};ex={optHex r.expose};pn={if r.privateNet then 1 else 0}"
 
 def parseOpt (s : String) : Option (Option Bytes) :=
